@@ -18,13 +18,13 @@ def run(ck: Check):
                "is exhausted; distinct by request text")
     ck.build_harness()
     ck.gen_tables()
-    ck.lean_obligations(["NaijaVerif.Props.C12"])
+    ck.lean_obligations(["NaijaVerif.Props.C12", "NaijaVerif.Props.C12Set"])
     ck.build_driver()
     n = 2000 if ck.tier == "quick" else 150000
     reqs, res = stream(ck, n)
     classify(ck, reqs, res)
     if ck.tier == "thorough":
-        ck.leanchecker(["NaijaVerif.Props.C12"])
+        ck.leanchecker(["NaijaVerif.Props.C12", "NaijaVerif.Props.C12Set"])
         exhaustive(ck)
     if ck.is_broken():
         search(ck)
